@@ -89,6 +89,19 @@ pub fn intern_names() {
     }
 }
 
+/// draws 0..7 fresh slots, the number a function of `key` (the case line, so a replay does the same): the names of the
+/// slots the e-graph invents afterwards — and with them the iteration order of every hash set and hash map keyed by slots —
+/// then differ from case to case instead of always starting at `$f0`
+pub fn fresh_noise(key: &str) {
+    let mut h: u64 = 0xcbf29ce484222325;
+    for b in key.bytes() {
+        h = (h ^ b as u64).wrapping_mul(0x100000001b3);
+    }
+    for _ in 0..(h >> 7) % 8 {
+        let _ = Slot::fresh();
+    }
+}
+
 /// slot from its private code (numeric, or one of the pre-interned names, or an `f<n>` name)
 pub fn slot_of_code(c: u32) -> Slot {
     match c % 4 {
